@@ -4,10 +4,13 @@ package checks
 // (c) name-changing transformations and (d) each language's built-in chain are
 // checked relatively: a reference target that dangles afterwards must already
 // have dangled before. (b) allowed_objects keeps exactly the closure.
-// (a) parser output is checked in c05_parse_test.go (needs the schema model).
+// (a) parser output is checked in c05_parse_test.go (mode "parse": generated
+// schemas in the three input formats through cog's loaders, then optionally
+// (b) / (c) / (d) on the parsed IR).
 
 import (
 	"fmt"
+	"os"
 	"sort"
 	"strings"
 	"testing"
@@ -23,13 +26,16 @@ import (
 )
 
 type c05Case struct {
-	Mode   string             `json:"mode"` // passes | lang | filter
+	Mode   string             `json:"mode"` // passes | lang | filter | parse
 	IR     irgen.IRSpec       `json:"ir"`
 	Passes []passgen.PassSpec `json:"passes,omitempty"`
 	Lang   string             `json:"lang,omitempty"`
 	// Allowed: object names for mode filter (package = Pkg)
 	Pkg     string   `json:"pkg,omitempty"`
 	Allowed []string `json:"allowed,omitempty"`
+	// Parse: mode parse — a generated schema in one of the three input formats
+	// goes through cog's loaders; the IR field is unused
+	Parse *c05ParseCase `json:"parse,omitempty"`
 }
 
 func danglingTargets(schemas ast.Schemas, refs []irx.Ref) map[string]irx.Ref {
@@ -64,186 +70,222 @@ func refPositionClass(where string) string {
 }
 
 func c05Check(c c05Case) []vlib.Violation {
+	if c.Mode == "parse" {
+		if c.Parse == nil {
+			return nil
+		}
+		vs, _ := c05CheckParse(*c.Parse)
+		return vs
+	}
 	schemas := c.IR.Build()
 	before := danglingTargets(schemas, irx.SchemaRefs(schemas))
-	var vs []vlib.Violation
 	switch c.Mode {
 	case "passes":
-		cur := schemas
-		for i, ps := range c.Passes {
-			var next ast.Schemas
-			var err error
-			sig, msg, panicked := vlib.Guard(func() {
-				next, err = compiler.Passes{ps.Build()}.Process(cur)
-			})
-			if panicked {
-				return []vlib.Violation{vlib.V("skip:panic:"+sig, "pass %d %s panicked: %s", i, ps, msg)}
-			}
-			if err != nil {
-				return nil // the transformation refused the input: nothing to check
-			}
-			after := danglingTargets(next, irx.SchemaRefs(next))
-			prev := danglingTargets(cur, irx.SchemaRefs(cur))
-			if len(prev) > 0 {
-				// the precondition "every reference resolves" no longer holds
-				// (an earlier replace_reference pointed to a missing object, or
-				// a listed finding struck): the rest of the sequence is outside
-				// the claim.
-				return vs
-			}
-			// replace_reference is only claimed "towards an existing object":
-			// earlier passes of the sequence may have renamed the destination.
-			excusedTarget := ""
-			if ps.Kind == "replace_reference" {
-				if _, exists := cur.LocateObject(ps.ToPkg, ps.To); !exists {
-					excusedTarget = ps.ToPkg + "." + ps.To
-				}
-			}
-			for key, r := range after {
-				if _, was := prev[key]; was {
-					continue
-				}
-				if excusedTarget != "" && r.Target() == excusedTarget {
-					continue
-				}
-				// a mapping names its target without a package (the walker shows
-				// it under the first branch package): the same excuse by name
-				if excusedTarget != "" && r.Kind == "mapping" && r.Name == ps.To {
-					continue
-				}
-				if _, was := before[key]; was {
-					continue
-				}
-				vs = append(vs, vlib.V(fmt.Sprintf("dangling:%s:%s:%s:%s", ps.Kind, ps.TargetClass, r.Kind, refPositionClass(r.Where)),
-					"after %s (pass %d of %v): %s at %s points to %s which does not exist (it resolved before)", ps, i, c.Passes, r.Kind, r.Where, r.Target()))
-			}
-			for _, p := range irx.SelfRefProblems(next) {
-				vs = append(vs, vlib.V("selfref:"+ps.Kind, "after %s: %s", ps, p))
-			}
-			if len(vs) > 0 {
-				return vs
-			}
-			cur = next
-		}
+		return c05CheckPasses(schemas, before, c.Passes)
 	case "lang":
-		lang := cogx.NewLanguage(c.Lang)
-		// run the chain pass by pass so that a new dangling reference is
-		// attributed to the pass that introduced it
-		cur := schemas
-		known := map[string]bool{}
-		for k := range before {
-			known[k] = true
+		return c05CheckLang(schemas, before, c.Lang)
+	case "filter":
+		return c05CheckFilter(schemas, c.Pkg, c.Allowed)
+	}
+	return nil
+}
+
+// c05CheckPasses runs a sequence of name-changing transformations on schemas
+// (before: what already dangled in them): a target that dangles after a pass
+// must have dangled before it.
+func c05CheckPasses(schemas ast.Schemas, before map[string]irx.Ref, passes []passgen.PassSpec) []vlib.Violation {
+	var vs []vlib.Violation
+	cur := schemas
+	for i, ps := range passes {
+		var next ast.Schemas
+		var err error
+		sig, msg, panicked := vlib.Guard(func() {
+			next, err = compiler.Passes{ps.Build()}.Process(cur)
+		})
+		if panicked {
+			return []vlib.Violation{vlib.V("skip:panic:"+sig, "pass %d %s panicked: %s", i, ps, msg)}
 		}
-		for _, pass := range lang.CompilerPasses() {
-			passName := strings.TrimPrefix(fmt.Sprintf("%T", pass), "*compiler.")
-			passName = strings.TrimPrefix(passName, "compiler.")
-			var next ast.Schemas
-			var err error
-			sig, msg, panicked := vlib.Guard(func() { next, err = compiler.Passes{pass}.Process(cur) })
-			if panicked {
-				return append(vs, vlib.V("skip:panic:"+sig, "%s chain, pass %s panicked: %s", c.Lang, passName, msg))
+		if err != nil {
+			return nil // the transformation refused the input: nothing to check
+		}
+		after := danglingTargets(next, irx.SchemaRefs(next))
+		prev := danglingTargets(cur, irx.SchemaRefs(cur))
+		if len(prev) > 0 {
+			// the precondition "every reference resolves" no longer holds
+			// (an earlier replace_reference pointed to a missing object, or
+			// a listed finding struck): the rest of the sequence is outside
+			// the claim.
+			return vs
+		}
+		// replace_reference is only claimed "towards an existing object":
+		// earlier passes of the sequence may have renamed the destination.
+		excusedTarget := ""
+		if ps.Kind == "replace_reference" {
+			if _, exists := cur.LocateObject(ps.ToPkg, ps.To); !exists {
+				excusedTarget = ps.ToPkg + "." + ps.To
 			}
-			if err != nil {
-				return vs
+		}
+		for key, r := range after {
+			if _, was := prev[key]; was {
+				continue
 			}
-			for key, r := range danglingTargets(next, irx.SchemaRefs(next)) {
-				if known[key] {
-					continue
-				}
-				known[key] = true
-				vs = append(vs, vlib.V(fmt.Sprintf("dangling:lang:%s:%s:%s:%s", c.Lang, passName, r.Kind, refPositionClass(r.Where)),
-					"%s chain, after pass %s: %s at %s points to %s which does not exist (every reference resolved before the chain)", c.Lang, passName, r.Kind, r.Where, r.Target()))
+			if excusedTarget != "" && r.Target() == excusedTarget {
+				continue
 			}
-			for _, p := range irx.SelfRefProblems(next) {
-				if !known["selfref:"+p] {
-					known["selfref:"+p] = true
-					vs = append(vs, vlib.V("selfref:lang:"+c.Lang+":"+passName, "%s chain, after pass %s: %s", c.Lang, passName, p))
-				}
+			// a mapping names its target without a package (the walker shows
+			// it under the first branch package): the same excuse by name
+			if excusedTarget != "" && r.Kind == "mapping" && r.Name == ps.To {
+				continue
 			}
-			cur = next
+			if _, was := before[key]; was {
+				continue
+			}
+			vs = append(vs, vlib.V(fmt.Sprintf("dangling:%s:%s:%s:%s", ps.Kind, ps.TargetClass, r.Kind, refPositionClass(r.Where)),
+				"after %s (pass %d of %v): %s at %s points to %s which does not exist (it resolved before)", ps, i, passes, r.Kind, r.Where, r.Target()))
+		}
+		for _, p := range irx.SelfRefProblems(next) {
+			vs = append(vs, vlib.V("selfref:"+ps.Kind, "after %s: %s", ps, p))
 		}
 		if len(vs) > 0 {
 			return vs
 		}
-		// builders derived from the transformed schemas (as Pipeline.Run does)
-		var builders ast.Builders
+		cur = next
+	}
+	return vs
+}
+
+// c05CheckLang runs the built-in chain of a language pass by pass, then builder
+// derivation, on schemas (before: what already dangled in them).
+func c05CheckLang(schemas ast.Schemas, before map[string]irx.Ref, langName string) []vlib.Violation {
+	var vs []vlib.Violation
+	lang := cogx.NewLanguage(langName)
+	// run the chain pass by pass so that a new dangling reference is
+	// attributed to the pass that introduced it
+	cur := schemas
+	known := map[string]bool{}
+	for k := range before {
+		known[k] = true
+	}
+	for _, pass := range lang.CompilerPasses() {
+		passName := strings.TrimPrefix(fmt.Sprintf("%T", pass), "*compiler.")
+		passName = strings.TrimPrefix(passName, "compiler.")
+		var next ast.Schemas
 		var err error
-		sig, msg, panicked := vlib.Guard(func() {
-			res, e := cogx.ContextFor(lang, schemas, true)
-			err = e
-			builders = res.Builders
-		})
+		sig, msg, panicked := vlib.Guard(func() { next, err = compiler.Passes{pass}.Process(cur) })
 		if panicked {
-			return []vlib.Violation{vlib.V("skip:panic:"+sig, "%s chain + builders panicked: %s", c.Lang, msg)}
+			return append(vs, vlib.V("skip:panic:"+sig, "%s chain, pass %s panicked: %s", langName, passName, msg))
 		}
 		if err != nil {
-			return nil
+			return vs
 		}
-		for key, r := range danglingTargets(cur, irx.BuilderRefs(builders)) {
+		for key, r := range danglingTargets(next, irx.SchemaRefs(next)) {
 			if known[key] {
 				continue
 			}
-			vs = append(vs, vlib.V(fmt.Sprintf("dangling:lang:%s:builders:%s:%s", c.Lang, r.Kind, refPositionClass(r.Where)),
-				"%s builders: %s at %s points to %s which does not exist", c.Lang, r.Kind, r.Where, r.Target()))
+			known[key] = true
+			vs = append(vs, vlib.V(fmt.Sprintf("dangling:lang:%s:%s:%s:%s", langName, passName, r.Kind, refPositionClass(r.Where)),
+				"%s chain, after pass %s: %s at %s points to %s which does not exist (every reference resolved before the chain)", langName, passName, r.Kind, r.Where, r.Target()))
 		}
-	case "filter":
-		var target *ast.Schema
-		for _, s := range schemas {
-			if s.Package == c.Pkg {
-				target = s
+		for _, p := range irx.SelfRefProblems(next) {
+			if !known["selfref:"+p] {
+				known["selfref:"+p] = true
+				vs = append(vs, vlib.V("selfref:lang:"+langName+":"+passName, "%s chain, after pass %s: %s", langName, passName, p))
 			}
 		}
-		if target == nil {
-			return nil
+		cur = next
+	}
+	if len(vs) > 0 {
+		return vs
+	}
+	// builders derived from the transformed schemas (as Pipeline.Run does)
+	var builders ast.Builders
+	var err error
+	sig, msg, panicked := vlib.Guard(func() {
+		res, e := cogx.ContextFor(lang, schemas, true)
+		err = e
+		builders = res.Builders
+	})
+	if panicked {
+		return []vlib.Violation{vlib.V("skip:panic:"+sig, "%s chain + builders panicked: %s", langName, msg)}
+	}
+	if err != nil {
+		return nil
+	}
+	for key, r := range danglingTargets(cur, irx.BuilderRefs(builders)) {
+		if known[key] {
+			continue
 		}
-		want := c05Closure(schemas, c.Pkg, c.Allowed)
-		pass := &compiler.FilterSchemas{}
-		for _, n := range c.Allowed {
-			pass.AllowedObjects = append(pass.AllowedObjects, compiler.ObjectReference{Package: c.Pkg, Object: n})
+		vs = append(vs, vlib.V(fmt.Sprintf("dangling:lang:%s:builders:%s:%s", langName, r.Kind, refPositionClass(r.Where)),
+			"%s builders: %s at %s points to %s which does not exist", langName, r.Kind, r.Where, r.Target()))
+	}
+	return vs
+}
+
+// c05CheckFilter: allowed_objects on directly constructed IR.
+func c05CheckFilter(schemas ast.Schemas, pkg string, allowed []string) []vlib.Violation {
+	var target *ast.Schema
+	for _, s := range schemas {
+		if s.Package == pkg {
+			target = s
 		}
-		var out ast.Schemas
-		var err error
-		sig, msg, panicked := vlib.Guard(func() { out, err = compiler.Passes{pass}.Process(schemas) })
-		if panicked {
-			return []vlib.Violation{vlib.V("skip:panic:"+sig, "FilterSchemas panicked: %s", msg)}
+	}
+	if target == nil {
+		return nil
+	}
+	want := c05Closure(schemas, pkg, allowed)
+	pass := &compiler.FilterSchemas{}
+	for _, n := range allowed {
+		pass.AllowedObjects = append(pass.AllowedObjects, compiler.ObjectReference{Package: pkg, Object: n})
+	}
+	var out ast.Schemas
+	var err error
+	sig, msg, panicked := vlib.Guard(func() { out, err = compiler.Passes{pass}.Process(schemas) })
+	if panicked {
+		return []vlib.Violation{vlib.V("skip:panic:"+sig, "FilterSchemas panicked: %s", msg)}
+	}
+	if err != nil {
+		return nil
+	}
+	return c05CompareFiltered(want, out, pkg, allowed)
+}
+
+// c05CompareFiltered compares the objects left by allowed_objects with the
+// closure of the listed ones.
+func c05CompareFiltered(want map[string]string, out ast.Schemas, pkg string, allowed []string) []vlib.Violation {
+	var vs []vlib.Violation
+	got := map[string]bool{}
+	for _, s := range out {
+		s.Objects.Iterate(func(_ string, o ast.Object) { got[s.Package+"."+o.Name] = true })
+	}
+	var missing, extra []string
+	for k, via := range want {
+		if !got[k] {
+			missing = append(missing, k+" (reached via "+via+")")
 		}
-		if err != nil {
-			return nil
+	}
+	for k := range got {
+		if _, ok := want[k]; !ok {
+			extra = append(extra, k)
 		}
-		got := map[string]bool{}
-		for _, s := range out {
-			s.Objects.Iterate(func(_ string, o ast.Object) { got[s.Package+"."+o.Name] = true })
-		}
-		var missing, extra []string
+	}
+	sort.Strings(missing)
+	sort.Strings(extra)
+	if len(missing) > 0 {
+		kinds := map[string]bool{}
 		for k, via := range want {
 			if !got[k] {
-				missing = append(missing, k+" (reached via "+via+")")
+				kinds[via[:strings.IndexByte(via+" ", ' ')]] = true
 			}
 		}
-		for k := range got {
-			if _, ok := want[k]; !ok {
-				extra = append(extra, k)
-			}
+		var ks []string
+		for k := range kinds {
+			ks = append(ks, k)
 		}
-		sort.Strings(missing)
-		sort.Strings(extra)
-		if len(missing) > 0 {
-			kinds := map[string]bool{}
-			for k, via := range want {
-				if !got[k] {
-					kinds[via[:strings.IndexByte(via+" ", ' ')]] = true
-				}
-			}
-			var ks []string
-			for k := range kinds {
-				ks = append(ks, k)
-			}
-			sort.Strings(ks)
-			vs = append(vs, vlib.V("filter:lost:"+strings.Join(ks, "+"), "allowed_objects=%v in %s dropped objects that the listed ones reference: %v", c.Allowed, c.Pkg, missing))
-		}
-		if len(extra) > 0 {
-			vs = append(vs, vlib.V("filter:kept-unreferenced", "allowed_objects=%v in %s kept objects nothing listed references: %v", c.Allowed, c.Pkg, extra))
-		}
+		sort.Strings(ks)
+		vs = append(vs, vlib.V("filter:lost:"+strings.Join(ks, "+"), "allowed_objects=%v in %s dropped objects that the listed ones reference: %v", allowed, pkg, missing))
+	}
+	if len(extra) > 0 {
+		vs = append(vs, vlib.V("filter:kept-unreferenced", "allowed_objects=%v in %s kept objects nothing listed references: %v", allowed, pkg, extra))
 	}
 	return vs
 }
@@ -302,22 +344,44 @@ func TestC05(t *testing.T) {
 	run := vlib.Begin(t, "C05")
 	defer run.Finish(t)
 	run.Describe(
-		"IRs of 1-3 packages x 1-7 objects built through cog's constructors (every kind, nesting <= 4, references within and across packages, into map keys, union branches, intersections, constant references, discriminator mappings, entry points; every reference into a loaded package resolves by construction). Modes: passes = sequence of 1-5 name-changing transformations (rename_object, PrefixObjectNames, duplicate_object, unspec, replace_reference to an existing object) with targets exact/case-flipped/other-package/absent 4:2:1:1; lang = built-in chain of go/java/php/python/typescript incl. builder derivation; filter = allowed_objects subset of one package. Oracle: an independent reflective walker lists every reference-bearing position; a target that dangles after must have dangled before; the filtered object set must equal the walker-computed closure. Non-trivial: a pass matched an object that is referenced elsewhere / the chain rewrote or created objects / the filter removed >=1 and kept >=2 objects; distinct by case hash.",
+		"Two input sources. (1) Modes passes / lang / filter (3:2:1 of 8): IRs of 1-3 packages x 1-7 objects built through cog's constructors (every kind, nesting <= 4, references within and across packages, into map keys, union branches, intersections, constant references, discriminator mappings, entry points; every reference into a loaded package resolves by construction). passes = sequence of 1-5 name-changing transformations (rename_object, PrefixObjectNames, duplicate_object, unspec, replace_reference to an existing object) with targets exact/case-flipped/other-package/absent 4:2:1:1; lang = built-in chain of go/java/php/python/typescript incl. builder derivation; filter = allowed_objects subset of one package. "+
+			"(2) Mode parse (2 of 8): a generated SCHEMA goes through cog's own input loaders (codegen.Pipeline.LoadSchemas: JSON Schema 2 : OpenAPI 1 : CUE 1). 4 of 5 are reference-topology models: 2-7 definitions (structs, enums, scalars, aliases, named unions / intersections); for each definition first WHO refers to it is drawn (1 referring position with probability 2/3, else 2-3; the first referrer is an earlier definition so that everything is reachable from the entry point; later ones anywhere, incl. itself and back to the entry point) and THROUGH WHAT: a chain of 0-3 wrappers out of array items, map values (additionalProperties / [string]: T), nullable, union branch (anyOf / oneOf / A | B, reference first or last), intersection branch (allOf, JSON formats), field of an anonymous struct; plus fields that are a union of two references (OpenAPI: with a discriminator), CUE constant references (#Enum & \"a\"), whole definitions that are an alias / array / map / union / intersection of references. Declaration sites: JSON Schema root $ref or the entry definition inlined at the root, `definitions` or `$defs`, definitions nested inside another definition (#/definitions/Host/definitions/X); CUE definitions nested in the struct of their only referrer, definitions written as regular top-level fields, the entry point's fields as top-level fields under `forced_envelope` (the only CUE entry point); OpenAPI models spread over two files / packages with cross-file $refs (closed or with references back). 1 of 5 are models of the shared schema generator (smodel: every construct class incl. defaults, constraints, enums, named unions and collections, allOf, struct defaults on CUE references, two-package OpenAPI). What is done with the parsed IR: nothing (2/5), the built-in chain of one language + builders (1/5), 1-3 name-changing transformations (rename_object, PrefixObjectNames, duplicate_object (also into the second package), replace_reference between existing objects) (1/5), or the same input loaded again with allowed_objects = a random non-empty subset of its definitions (1/5). "+
+			"Oracle: an independent reflective walker lists every reference-bearing position (type references wherever they sit, constant references, discriminator mapping targets, entry point and entry point type, builder targets). Parser output: every one that points into a loaded package must name an object there, and every object must be stored under its own name with a SelfRef naming itself. Transformations / chains: a target that dangles after must have dangled before. allowed_objects: the objects left must equal the walker-computed closure of the listed ones (for a parsed input: inside the input's own package, the filter runs per input). Non-trivial: a pass matched an object that is referenced elsewhere / the chain rewrote or created objects / the filter removed >=1 and kept >=2 objects / every parse case; distinct by case hash. Labels parse:sole_ref_via:<position> count the definitions that exist in the IR only if that one position declared them.",
 		"references into packages that are not loaded are outside the claim",
-		"a transformation or chain that returns an error is an acceptable outcome",
-		"a panic inside a transformation is not a C05 matter (reported under C04); such cases are skipped and counted",
+		"a transformation or chain that returns an error is an acceptable outcome; so is a loader that refuses the input (counted: parse_rejected)",
+		"a panic inside a transformation or a loader is not a C05 matter (reported under C04); such cases are skipped and counted. CUE hidden fields (_x) are not generated: the CUE front end panics on every one (unreachable HiddenLabel in simplecue.selectorLabel)",
 		"discriminator mapping targets may live in the package of any branch of their union",
+		"allowed_objects restricts one input before the inputs are merged: objects of the input that are reachable only through objects of ANOTHER input (a second OpenAPI file referring back) are not part of its closure",
+		"explicit OpenAPI discriminator mappings are excluded from generation and counted (excluded_openapi_explicit_mapping): genuine unlisted defect, the front end keeps '#/components/schemas/X' as mapping target (witness/C05/openapi_explicit_mapping.json)",
 	)
 	if vlib.RunReplay(t, run, c05Check) {
 		return
 	}
 	cfg := c05Config()
 	rapid.Check(t, func(rt *rapid.T) {
-		c := c05Case{IR: irgen.Draw(rt, cfg)}
-		c.Mode = rapid.SampledFrom([]string{"passes", "passes", "passes", "lang", "lang", "filter"}).Draw(rt, "mode")
+		var c c05Case
+		modes := []string{"passes", "passes", "passes", "lang", "lang", "filter", "parse", "parse"}
+		if only := os.Getenv("VERIF_C05_MODE"); only != "" { // development aid: these modes only (comma separated)
+			modes = strings.Split(only, ",")
+		}
+		c.Mode = rapid.SampledFrom(modes).Draw(rt, "mode")
 		labels := []string{"mode:" + c.Mode}
 		nontrivial := false
+		if c.Mode != "parse" {
+			c.IR = irgen.Draw(rt, cfg)
+		}
 		switch c.Mode {
+		case "parse":
+			pc, plabels := c05DrawParseCase(rt)
+			c.Parse = &pc
+			for _, l := range plabels {
+				if strings.HasPrefix(l, "count:") {
+					run.Count(strings.TrimPrefix(l, "count:"), 1)
+					continue
+				}
+				labels = append(labels, l)
+			}
+			nontrivial = true
 		case "passes":
 			n := rapid.IntRange(1, 5).Draw(rt, "npasses")
 			for i := 0; i < n; i++ {
@@ -360,6 +424,9 @@ func TestC05(t *testing.T) {
 		}
 		// positions cog's own visitor does not traverse
 		for _, r := range irx.SchemaRefs(c.IR.Build()) {
+			if c.Mode == "parse" {
+				break
+			}
 			if cls := refPositionClass(r.Where); cls == "map-key" || cls == "entry-point-type" {
 				labels = append(labels, "has_ref:"+cls)
 			}
@@ -373,11 +440,21 @@ func TestC05(t *testing.T) {
 			key = vlib.Hash(c)
 		}
 		run.Eval(key, labels...)
-		if nontrivial && len(c.IR.ObjectNames()) <= 4 {
+		if nontrivial && ((c.Mode != "parse" && len(c.IR.ObjectNames()) <= 4) || (c.Mode == "parse" && c.Parse.Model == nil && len(c.Parse.Schema.Defs) <= 3)) {
 			run.Sample(c)
 		}
 		run.Pending(c)
-		vs := c05Check(c)
+		var vs []vlib.Violation
+		if c.Mode == "parse" {
+			var info c05ParseInfo
+			vs, info = c05CheckParse(*c.Parse)
+			run.Label(info.Labels...)
+			for _, k := range info.Counters {
+				run.Count(k, 1)
+			}
+		} else {
+			vs = c05Check(c)
+		}
 		vs = skipPanics(run, vs)
 		vlib.Fail(rt, run.Judge(c, vs))
 	})
